@@ -41,11 +41,24 @@ def gen_stack(rng):
     else:
         for i in range(n):
             subs.append([e for e in pool if rng.random() < 0.6] or [rng.choice(pool)])
-    return [{"events": s, "guards": rng.random() < 0.5} for s in subs]
+    out = [{"events": s, "guards": rng.random() < 0.5} for s in subs]
+    # some tracers are conditional: a dynamic node condition (re-checked at delivery) computable from the node's type / position
+    for t in out:
+        if rng.random() < 0.35:
+            kind = rng.choice(["type", "line", "col"])
+            arg = rng.sample(["Name", "Constant", "BinOp", "Call", "Assign", "Expr", "Attribute", "Subscript", "Compare", "For", "FunctionDef"], 4) if kind == "type" else rng.randrange(2 if kind == "line" else 3)
+            t["pred"] = {"kind": kind, "arg": arg, "dynamic": True}
+    return out
 
 
 def gen_case(rng):
-    return {"src": rc.gen_program(rng), "stack": gen_stack(rng)}
+    c = {"src": rc.gen_program(rng), "stack": gen_stack(rng)}
+    if rng.random() < 0.25:
+        # handlers that call an (instrumented) function of the program at every third occurrence they see
+        c["src"] = PROBE + c["src"]
+        for t in c["stack"]:
+            t["calls"] = "probe_fn"
+    return c
 
 
 def union(stack):
@@ -57,9 +70,28 @@ def union(stack):
     return out
 
 
+def pred_holds(pred, pos):
+    if pred is None or pos is None:
+        return pred is None
+    if pred["kind"] == "type":
+        return pos[0] in pred["arg"]
+    if pred["kind"] == "line":
+        return (pos[1] or 0) % 2 == pred["arg"]
+    return (pos[2] or 0) % 3 == pred["arg"]
+
+
+PROBE = "def probe_fn():\n    pq = 1\n    return pq + 1\n"
+
+
+def harness_tracer(t):
+    if t.get("pred") or t.get("calls"):
+        return {"handlers": [{"events": t["events"], "pred": t.get("pred"), "calls": t.get("calls")}], "guards": t["guards"]}
+    return {"events": t["events"], "guards": t["guards"]}
+
+
 def to_impl(c, export=True):
-    st = c["stack"]
-    configs = [st] + [[t] for t in st] + [[{"events": union(st), "guards": any(t["guards"] for t in st)}]]
+    st = [harness_tracer(t) for t in c["stack"]]
+    configs = [st] + [[t] for t in st] + [[{"events": union(c["stack"]), "guards": any(t["guards"] for t in st)}]]
     return {"src": c["src"], "export": export, "configs": configs}
 
 
@@ -94,8 +126,12 @@ def oracle_case(c, im):
     if any(r.get("exc") != stacked.get("exc") for r in solos + [uni]):
         return {"what": "the stacked run and a solo run end differently", "kind": "exception",
                 "stacked": stacked.get("exc"), "solo": [r.get("exc") for r in solos]}
+    def rows(stream, t):
+        # a conditional tracer is only compared on occurrences that have a source node (a bare `except:` is delivered with
+        # a synthetic BaseException name that is in no table: documented under C02 as having no source meaning)
+        return [x[:3] for x in stream if not (t.get("pred") and x[1] is None)]
     for i, r in enumerate(solos):
-        d = first_diff(stacked["streams"][i], r["streams"][0])
+        d = first_diff(rows(stacked["streams"][i], st[i]), rows(r["streams"][0], st[i]))
         if d:
             return {"what": "tracer %d receives a different stream when stacked (occurrence %d: stacked %d rows, alone %d rows)"
                     % (i, d[0], len(stacked["streams"][i]), len(r["streams"][0])), "index": d[0], "stacked": d[1], "alone": d[2], "kind": "solo", "tracer": i,
@@ -105,9 +141,10 @@ def oracle_case(c, im):
     want = []
     for row in uni["streams"][0]:
         for ti, t in enumerate(st):
-            if row[0] in t["events"]:
+            if row[0] in t["events"] and pred_holds(t.get("pred"), row[1]):
                 want.append([ti, row[0], row[1]])
-    d = first_diff(stacked["global"], want)
+    cond = {ti for ti, t in enumerate(st) if t.get("pred")}
+    d = first_diff([x[:3] for x in stacked["global"] if not (x[0] in cond and x[2] is None)], want)
     if d:
         return {"what": "global delivery order differs at position %d" % d[0], "index": d[0], "observed": d[1], "expected": d[2], "kind": "order",
                 "event": (d[1] or d[2])[1]}
@@ -143,6 +180,12 @@ def signature(c, f):
 
 
 CORPUS = [
+    {"src": PROBE + "x = 1\ny = 2\nz = x + y\nw = y * z + x\n", "stack": [{"events": ["load_name", "after_assign_rhs"], "guards": False, "calls": "probe_fn"},
+                                                                         {"events": ["load_name", "after_binop"], "guards": False, "calls": "probe_fn"}]},
+    {"src": "x = 1\ny = 2\nz = x + y\nw = y * z + x\n", "stack": [{"events": ["load_name"], "guards": False},
+                                                                 {"events": ["load_name"], "guards": False, "pred": {"kind": "col", "arg": 0, "dynamic": True}}]},
+    {"src": "x = 1\ny = 2\nz = x + y\nw = y * z + x\n", "stack": [{"events": ["load_name", "after_binop"], "guards": False, "pred": {"kind": "type", "arg": ["BinOp"], "dynamic": True}},
+                                                                 {"events": ["load_name", "after_binop"], "guards": True}]},
     {"src": "a = 1\nb = a + 2\n", "stack": [{"events": ["load_name", "after_assign_rhs"], "guards": False}, {"events": ["after_assign_rhs", "after_binop"], "guards": True}]},
     {"src": "def f1(p=0):\n    x = p\n    for i in range(2):\n        x = x + i\n    return x\na = f1(2)\nf1(a)\n",
      "stack": [{"events": ["before_stmt", "after_stmt", "after_for_loop_iter"], "guards": True}, {"events": ["after_module_stmt", "load_name"], "guards": False},
@@ -154,8 +197,8 @@ CORPUS = [
 
 def run(ctx, model_ok):
     rng = ctx.rng
-    n = 40 if ctx.tier == "quick" else 500
-    cases = [dict(rp) for rp in getattr(ctx, "known_replays", [])] + [dict(c) for c in CORPUS]
+    n = 50 if ctx.tier == "quick" else 500
+    cases = [dict(rp) for rp in getattr(ctx, "known_replays", []) + getattr(ctx, "fixed_replays", [])] + [dict(c) for c in CORPUS]
     while len(cases) < n:
         cases.append(gen_case(rng))
     impl = run_impl(cases)
@@ -174,6 +217,8 @@ def run(ctx, model_ok):
         cf = im.get("configs", [])
         st = cases[i]["stack"]
         if cf and all("out_tree" in r for r in cf) and max(r["out_nodes"] for r in cf) <= 9000:
+            if any(t.get("pred") for t in st):
+                continue            # with node conditions the stacked rewrite has sites a solo rewrite lacks: decided by the oracle (and C11)
             for ti, t in enumerate(st):
                 rows.append((cf[1 + ti]["out_tree"], cf[0]["out_tree"], t["events"], t["events"], union(st)))
                 idx.append((i, ti))
@@ -202,9 +247,9 @@ def run(ctx, model_ok):
         "evaluations": len(cases),
         "distinct_nontrivial": len({lib.digest(c) for c, im in zip(cases, impl) if "configs" in im and len(im["configs"][0].get("global", [])) >= 4}),
         "rule": "generated programs (see C01) x stacks of 2-3 observing tracers with overlapping / disjoint / nested / identical event subsets (densities 0.15-0.8 of all "
-                "AST events incl. deferred) and independent global-guard flags; each stack run once stacked, once per tracer alone, once as one tracer subscribed to the union; "
+                "AST events incl. deferred) and independent global-guard flags, a third of the tracers with a dynamic node condition (by node type, line or column parity), a quarter of the stacks with handlers that call an instrumented function of the program; each stack run once stacked, once per tracer alone, once as one tracer subscribed to the union; "
                 "non-trivial = >=4 deliveries in the stacked run; distinct by sha1",
-        "samples": [{"stack": [{"n_events": len(t["events"]), "first": t["events"][:4], "guards": t["guards"]} for t in cases[-1]["stack"]], "src_tail": cases[-1]["src"][-300:]}],
+        "samples": [{"stack": [{"n_events": len(t["events"]), "first": t["events"][:4], "guards": t["guards"], "pred": t.get("pred")} for t in cases[-1]["stack"]], "src_tail": cases[-1]["src"][-300:]}],
         "traces_validated": ok["proj"],
         "distribution": {"stack_shapes": shapes, "deliveries_compared": deliveries, "certificates_checked": len(rows), "certificates_ok": ok},
         "failures": failures, "extra": {"certificate_failures": len(bad)},
